@@ -17,6 +17,18 @@ def base_text(variant=0):
          "256 = N 6 0", "300 = E solo", "400 = N 4 1000", "1500 = N 0 0"]
     if variant == 1:
         g = ["0 = N 7 10", "10 = S 2 5", "12 = N 0 0", "12 = N 4 7", "13 = N 1 0"]
+    if variant == 2:
+        # the same shape, but body lines NOT in tick order (the parser accepts this under a single tempo and keeps
+        # file order): a read-only operation must not "repair" the order either
+        g = ["0 = N 0 0", "576 = N 1 48", "576 = N 2 96", "768 = N 3 0", "900 = S 2 50", "200 = S 2 300", "192 = N 7 0", "384 = N 4 10",
+             "300 = E solo", "100 = E soloend", "1500 = N 0 0", "1400 = N 1 0"]
+        return chart_text(
+            res=192,
+            song=['Name = "twin"', "Offset = 0", "Player2 = bass"],
+            sync=["0 = TS 4", "0 = B 120000", "768 = TS 3 3", "384 = TS 6", "1000 = A 5000000", "10 = A 1"],
+            events=['96 = E "lyric la"', '0 = E "section intro"', '192 = E "custom"', '50 = E "lyric lo"'],
+            tracks={"ExpertSingle": g, "HardSingle": ["50 = E solo", "0 = S 2 100", "10 = E x"], "EasyDoubleBass": ["500 = N 1 20", "0 = N 0 0"]},
+        )
     return chart_text(
         res=192,
         song=['Name = "twin"', "Offset = 0", "Player2 = bass"],
@@ -170,7 +182,7 @@ def run_sequence(sid, ops, text, other, want=None):
 
 
 def _judge(ctx, seqs, text, origin, variant):
-    other = parse(base_text(1 - variant))
+    other = parse(base_text(1 if variant != 1 else 0))
     recs = []
     owner = {}
     for sid, ops, expect_last in seqs:
@@ -211,6 +223,9 @@ def run(ctx):
     ctx.extra["operation_sequences_from_tlc"] = len(seqs)
     text = base_text(0)
     _judge(ctx, seqs, text, "ChartObject.tla operation sequences", 0)
+    # the same sequences on a chart whose body lines are not in tick order ("forall charts")
+    seqs2 = [(f"d{k}", ops, None) for k, (sid, ops, last) in enumerate(seqs)]
+    _judge(ctx, seqs2 if not ctx.quick else seqs2[::2], base_text(2), "ChartObject.tla operation sequences, disordered chart", 2)
     # longer seeded sequences over the same alphabet, on a second chart
     alphabet = sorted({json.dumps(b["ops"][0]) for b in beh})
     alphabet = [json.loads(a) for a in alphabet]
